@@ -38,6 +38,14 @@ fn offset_ok(o: Offset) -> bool {
 
 /// kind 0 Date::parse, 1 Time::parse, 2 DateTime::parse
 fn case_parse(kind: u8, input: &str, pattern: &str, acc: &mut Acc) {
+    case_parse_inner(kind, input, pattern, acc);
+    let h = crate::props::anchor::hash(&[kind as u64, crate::props::anchor::hash_str(input), crate::props::anchor::hash_str(pattern)]);
+    if h % 8 == 0 {
+        crate::props::anchor::parse_light(kind, acc, "parse (purity probe)", &|| json!({"kind": "parse", "ty": kind, "input": input, "pattern": pattern}));
+    }
+}
+
+fn case_parse_inner(kind: u8, input: &str, pattern: &str, acc: &mut Acc) {
     acc.transitions += 1;
     acc.states += 1;
     let name = ["Date::parse", "Time::parse", "DateTime::parse"][kind as usize];
@@ -81,6 +89,14 @@ fn panic_class(msg: &str) -> &'static str {
 }
 
 fn case_format(kind: u8, day: i64, nod: u64, off: i32, pattern: &str, acc: &mut Acc) {
+    case_format_inner(kind, day, nod, off, pattern, acc);
+    let h = crate::props::anchor::hash(&[kind as u64, day as u64, nod, crate::props::anchor::hash_str(pattern)]);
+    if h % 8 == 0 {
+        crate::props::anchor::format_light(kind, acc, "format (purity probe)", &|| json!({"kind": "format", "ty": kind, "day": day, "nod": nod.to_string(), "off": off, "pattern": pattern}));
+    }
+}
+
+fn case_format_inner(kind: u8, day: i64, nod: u64, off: i32, pattern: &str, acc: &mut Acc) {
     let got = match real_format(kind, day, nod, off, pattern) {
         Some(g) => g,
         None => return,
@@ -95,6 +111,14 @@ fn case_format(kind: u8, day: i64, nod: u64, off: i32, pattern: &str, acc: &mut 
 
 /// which: 0 parse_rfc3339, 1 DateTime::from_str, 2 Date::from_str, 3 Time::from_str
 fn case_fixed(which: u8, input: &str, acc: &mut Acc) {
+    case_fixed_inner(which, input, acc);
+    let h = crate::props::anchor::hash(&[which as u64, crate::props::anchor::hash_str(input)]);
+    if h % 8 == 0 {
+        crate::props::anchor::text(acc, "fixed-format readers (purity probe)", &|| json!({"kind": "fixed", "which": which, "input": input}));
+    }
+}
+
+fn case_fixed_inner(which: u8, input: &str, acc: &mut Acc) {
     acc.transitions += 1;
     acc.states += 1;
     let name = ["DateTime::parse_rfc3339", "DateTime::from_str", "Date::from_str", "Time::from_str"][which as usize];
@@ -125,6 +149,12 @@ fn case_fixed(which: u8, input: &str, acc: &mut Acc) {
 }
 
 fn case_cron(expr: &str, acc: &mut Acc) {
+    case_cron_inner(expr, acc);
+    crate::props::anchor::cron(acc, "CronSchedule (purity probe)", &|| json!({"kind": "cron", "expr": expr}));
+    astrolabe::verif_hooks::set_now(None);
+}
+
+fn case_cron_inner(expr: &str, acc: &mut Acc) {
     acc.transitions += 2;
     acc.states += 1;
     let got = call(|| (CronSchedule::parse(expr).is_ok(), CronSchedule::from_str(expr).is_ok()));
